@@ -7,12 +7,12 @@ export CARGO_NET_OFFLINE=true
 unset RUSTFLAGS CARGO_ENCODED_RUSTFLAGS CARGO_BUILD_RUSTFLAGS CARGO_TARGET_DIR CARGO_BUILD_TARGET_DIR
 mkdir -p work build evidence replays
 ./coq/mkproject.sh
-timeout 3400 make -C coq -k -j16 >work/setup-coq.log 2>&1 || { echo "setup: some Coq files did not build (see work/setup-coq.log):"; grep -E "^(File|Error)" work/setup-coq.log | head -20; }
+timeout 3400 make -C coq -k -j16 >work/setup-coq.log 2>&1 || { [ $? = 124 ] && echo "setup: the Coq build was CUT by its 3400 s time limit (machine too slow/loaded); the checks will finish it"; echo "setup: some Coq files did not build (see work/setup-coq.log):"; grep -E "^(File|Error)" work/setup-coq.log | head -20; }
 for d in ocaml/c*/; do
   p=$(basename "$d")
   [ -f "$d/driver.ml" ] && [ -f "$d/model.ml" ] && { ./ocaml/build.sh "$p" || echo "setup: ocaml driver $p did not build"; }
 done
-(cd harness && timeout 3400 cargo build --offline --bins --keep-going >../work/setup-cargo.log 2>&1) || { echo "setup: some harness binaries did not build (see work/setup-cargo.log):"; grep -E "^error" work/setup-cargo.log | head -20; }
+(cd harness && timeout 3400 cargo build --offline --bins --keep-going >../work/setup-cargo.log 2>&1) || { [ $? = 124 ] && echo "setup: the harness build was CUT by its 3400 s time limit; the checks will finish it"; echo "setup: some harness binaries did not build (see work/setup-cargo.log):"; grep -E "^error" work/setup-cargo.log | head -20; }
 # C03 also ties the partition-key arithmetic with overflow checks off (second build of its runner)
 (cd harness && CARGO_PROFILE_DEV_OVERFLOW_CHECKS=false CARGO_TARGET_DIR=/verif/build/cargo-c03-nochk timeout 3400 cargo build --offline --bin c03 >../work/setup-cargo-c03-nochk.log 2>&1) || echo "setup: the unchecked C03 runner did not build (see work/setup-cargo-c03-nochk.log)"
 echo setup done
